@@ -243,7 +243,7 @@ pub const KEYWORDS: [&str; 60] = [
 
 fn gen_word(r: &mut Rng) -> String {
     let base = r.pick(&KEYWORDS).to_string();
-    match r.below(10) {
+    match r.below(11) {
         0 => base.to_uppercase(),
         1 => {
             let mut c = base.chars();
@@ -262,6 +262,11 @@ fn gen_word(r: &mut Rng) -> String {
         }
         7 => format!("{}é", base),
         8 => format!("{}\r\n{}", base, r.pick(&KEYWORDS)),
+        9 => {
+            // Unicode blanks where an ASCII blank is expected (char::is_whitespace / regex \s are wider than ' ')
+            let b = *r.pick(&['\u{a0}', '\u{2003}', '\u{3000}', '\u{2028}', '\u{85}', '\u{1680}', '\u{b}']);
+            if base.contains(' ') { base.replace(' ', &b.to_string()) } else { format!("{}{}[x]", base, b) }
+        }
         _ => base,
     }
 }
@@ -343,8 +348,8 @@ pub const FIELD_NAMES: [&str; 118] = [
     "Vcs-Arch", "Vcs-Browser", "Vcs-Bzr", "Vcs-Cvs", "Vcs-Darcs", "Vcs-Git", "Vcs-Hg", "Vcs-Mtn", "Vcs-Svn", "Version",
 ];
 
-pub const VALUES: [&str; 56] = [
-    "", "foo", "1.0-1", "1:2.0~rc1-1", "yes", "no", "true", "false", "force", "binary-targets", "optional", "bogus", "same", "deb",
+pub const VALUES: [&str; 59] = [
+    "https://e.org/x\u{3000}[sub]", "a\u{2003}(>=\u{a0}1)", "pkg\u{3000}deb\u{2003}x\u{a0}optional", "", "foo", "1.0-1", "1:2.0~rc1-1", "yes", "no", "true", "false", "force", "binary-targets", "optional", "bogus", "same", "deb",
     "deb deb-src", "https://example.org/", "http://[::1", "not a url", "mailto:x", "stable main", "amd64 i386", "a, b, c", "a b c",
     "libc6 (>= 2.3), foo | bar [amd64] <!nocheck>", "a [", "${", "${misc:Depends}", "a (", "a (>= 1", "a <", "a (>= 1:2~)", "a b",
     "Joe <joe@example.com>", "Joe <joe@example.com>, Ann <ann@example.org>", "12345", "18446744073709551616", "-1", "1e9", "é漢😀",
